@@ -180,7 +180,7 @@ class CallGen:
 
     def shuffled(self, params):
         """The packet data need not be the first parameter: any order of (bundle, register operand, value)."""
-        if self.ch.chance(1, 2, "param-order-canonical"):
+        if self.ch.chance(1, 3, "param-order-canonical"):
             return params
         params = list(params)
         out = []
@@ -244,7 +244,7 @@ class CallGen:
         A = self.pick(ALL_T, lambda a: not (self.cfg == "A" and f5a(a, P)), label)
         return A
 
-    def gen_caller(self, allow_bundled=True):
+    def gen_caller(self, allow_bundled=True, force_form=None):
         """-> dict(text, stmts, outs: [(name, type)], convention: bool, uses: [fnames], ncalls)"""
         ch = self.ch
         names_used = set()
@@ -264,6 +264,8 @@ class CallGen:
         form = ch.weighted([("single", 5), ("two_calls", 5), ("parked", 4), ("arg_call", 3), ("three_calls", 2), ("cond_calls", 1),
                             ("const_cond_calls", 2), ("reassign", 3), ("void_call", 4 if voids else 0), ("loop_cond_call", 2),
                             ("branch_call", 4 if voids else 0), ("two_byref_calls", 3 if voids else 0), ("logic_calls", 3)], "cform")
+        if force_form == "two_byref_calls" and voids:
+            form = force_form
         stmts = []
         srcs = ["RssV", "RttV"]
 
